@@ -8,7 +8,7 @@ VERIF = os.path.abspath(os.path.join(os.path.dirname(os.path.abspath(__file__)),
 CORE_OPS = {"new", "clone", "clonef", "drop", "set", "clear", "mark", "collect", "unwrap", "fagain", "put", "take"}
 BASE = dict(N=3, NS=2, NP=0, NW=0, FIN=True, WEAK=True, DBG=True, MAXRC=16382, MAXWC=32767, MaxRoots=2, MaxWRoots=0,
             MaxOps=6, MaxFaults=0, MaxTraceK=0, BUG_STALE_TC=False, BUG_NESTED_FLAGS=False, OPS=CORE_OPS,
-            AUTOF=True, AUTO0=False, SZ=152)
+            AUTOF=True, AUTO0=False, SZ=160, CLEAN=False, MaxActs=0, BUG_CLEAN_REENTRANT=False)
 
 
 def _eng(name, quick, thorough, builds, **kw):
@@ -44,6 +44,14 @@ ENGINES = {
     # saturation of the strong / weak counters at their real limits (bulk operations), later life of the object
     'sat': _eng('sat', dict(N=2, NS=1, NW=1, MaxOps=6, MaxWRoots=2, OPS={"new", "sat", "clone", "drop", "put", "collect", "downgrade", "upgrade", "dropw", "unwrap"}),
                 dict(MaxOps=7), {'quick': ['all-dev'], 'thorough': ['all-dev', 'nofin-rel']}),
+    # deep histories over two objects: finalizers that create / resurrect objects, sets mixing finalized and fresh objects
+    'resur': _eng('resur', dict(N=2, NS=1, MaxOps=9, OPS={"new", "drop", "set", "clonef", "collect"}), dict(MaxOps=10, OPS={"new", "drop", "set", "clonef", "collect", "clear"}),
+                  {'quick': ['all-dev'], 'thorough': ['all-dev', 'all-rel']}),
+    # cleaners: register / clean / Cleanable drop / owner release by count and by the collector, actions that act
+    'clean': _eng('clean', dict(N=2, NS=1, CLEAN=True, MaxActs=2, MaxOps=6, OPS={"new", "drop", "put", "collect", "register", "clean", "dropcl", "clone"}),
+                  dict(MaxOps=7), {'quick': ['all-dev'], 'thorough': ['all-dev', 'nofin-rel']}),
+    'cleanfault': _eng('cleanfault', dict(N=2, NS=1, CLEAN=True, MaxActs=2, MaxOps=5, MaxFaults=1, MaxTraceK=1, OPS={"new", "drop", "put", "collect", "register", "clean", "dropcl"}),
+                  dict(MaxOps=6), {'quick': ['all-dev'], 'thorough': ['all-dev', 'nofin-rel']}),
     'faultnofin': _eng('faultnofin', dict(FIN=False, MaxOps=5, MaxFaults=1, MaxTraceK=3, OPS=CORE_OPS - {"fagain"}), dict(MaxOps=7), {'quick': ['nofin-rel'], 'thorough': ['nofin-dev', 'nofin-rel']}),
 }
 
@@ -65,6 +73,8 @@ def graph_conformance(tier, seed):
     scale = 1 if tier == 'quick' else 8
     for b in builds:
         st.append(_script(b, 'regress/core.ndjson'))
+        st.append(_script(b, 'regress/clean.ndjson'))
+        st.append(_random(b, seed + 4000, 8 * scale, 500, faultp=0.005, ns=2, np=0, nw=1, maxobjs=8, clean=1))
         st.append(_random(b, seed, 12 * scale, 500, faultp=0.0, ns=2, np=1, nw=1, maxobjs=8))
         st.append(_random(b, seed + 1000, 12 * scale, 500, faultp=0.02, ns=2, np=1, nw=1, maxobjs=8))
         st.append(_random(b, seed + 2000, 6 * scale, 400, faultp=0.0, ns=3, np=0, nw=0, maxobjs=14))
@@ -72,10 +82,10 @@ def graph_conformance(tier, seed):
     return st
 
 
-GRAPH_PROPS = ['C01', 'C02', 'C03', 'C04', 'C05', 'C06', 'C07', 'C08', 'C09', 'C11', 'C12', 'C13', 'C14', 'C15', 'C16']
+GRAPH_PROPS = ['C01', 'C02', 'C03', 'C04', 'C05', 'C06', 'C07', 'C08', 'C09', 'C11', 'C12', 'C10', 'C13', 'C14', 'C15', 'C16']
 
 
-GRAPH_ENGINES = ['core', 'pin', 'nofin', 'fault', 'faultnofin', 'weak', 'weaknofin', 'auto', 'cyc', 'sat']
+GRAPH_ENGINES = ['resur', 'core', 'pin', 'nofin', 'fault', 'faultnofin', 'weak', 'weaknofin', 'auto', 'cyc', 'sat', 'clean', 'cleanfault']
 
 
 def plan(pid, tier, seed):
@@ -84,6 +94,10 @@ def plan(pid, tier, seed):
         for en in GRAPH_ENGINES:
             for b in ENGINES[en]['builds'][tier]:
                 conf.append({'kind': 'replay', 'variant': b, 'engine': en})
+        only = os.environ.get('VERIF_ONLY_ENGINES')   # development aid: restrict the plan (never used by registered commands)
+        if only:
+            keep = only.split(',')
+            return {'engines': [e for e in GRAPH_ENGINES if e in keep], 'conformance': [c for c in conf if c['engine'] in keep]}
         return {'engines': list(GRAPH_ENGINES), 'conformance': conf + graph_conformance(tier, seed)}
     raise SystemExit('no plan for property %s' % pid)
 
